@@ -28,6 +28,9 @@ FRAGMENTS = [
     '{\n    "a": 1\n}\n', '--- a\n+++ b\n', '@@ -1 +1 @@\n', '+x\n', '-y\n',
     '#...diff: length=11\nliteral 12\n', '#...diff:\ndelta 3\nliteral 5\nx',
     '#...diff: length=9\n...\nliteral 1\n',
+    '+x...\n', ' retry later...\n', '...\r\n', 'a...b\n', '....\n',
+    '#.change: encoding=UTF-8\n', '#..file: encoding=utf_8\n',
+    '#...meta: encoding=Utf8, format=json, length=3\n',
     ' z\n', '...\n', 'delta 12\n', 'literal 12\n', 'literal 5\r\n', 'delta 1\r\n', '#diffx: 1.0\n', '#.change: wip\n',
     '#..file: \n', '#', '#.', '#..', '#...', ':', ' ', '\n', '\r\n', '\r',
     'Index: foo\n', 'diff --git a b\n', '# comment\n', '#...diff:\n# HG\n',
@@ -38,6 +41,10 @@ FRAGMENTS = [
     '#.preamble: indent=-1, length=2\nx\n', '#...diff: length=-5\n',
     '#.change: encoding=utf-8\n', '#..file: encoding=utf-16\n',
 ]
+
+
+UTF8_SPELLINGS = ['utf-8', 'utf-8', 'UTF-8', 'utf_8', 'utf8', 'U8', 'UTF8',
+                  'Utf-8']
 
 
 class Timeout(BaseException):
@@ -143,7 +150,9 @@ def benign_program(program):
         kw = dict(kw)
 
         if 'encoding' in kw:
-            kw['encoding'] = 'utf-8'      # still UTF-8 everywhere
+            # still UTF-8 everywhere, under any of its spellings
+            kw['encoding'] = UTF8_SPELLINGS[
+                (len(calls) + len(repr(sorted(kw)))) % len(UTF8_SPELLINGS)]
 
         if op == 'preamble':
             kw['text'] = clean(kw['text']).replace('\x00', '')
